@@ -3,9 +3,11 @@
 P=$1; D=$2; shift 2
 cd /repo && git checkout -q -- . && git apply "$D" || { echo "APPLY-FAILED $D"; exit 2; }
 cd /verif
+rm -rf /tmp/evidence_keep && cp -r evidence /tmp/evidence_keep
 for id in $P "$@"; do
   out=$(timeout 1500 bin/check $id --tier quick 2>&1); rc=$?
   echo "== $id rc=$rc :: $(echo "$out" | grep -c '^OBLIGATION-BROKEN') broken obligations; $(echo "$out" | grep '^VIOLATION' | head -2 | tr '\n' ' ')"
   echo "$out" | grep "^OBLIGATION-BROKEN\|violation:" | head -4 | cut -c1-220
 done
 git -C /repo checkout -q -- .
+rm -rf /verif/evidence && mv /tmp/evidence_keep /verif/evidence
